@@ -193,6 +193,7 @@ class Harness:
     replay_libs: list = field(default_factory=list)
     extra_srcs: list = field(default_factory=list)  # additional TUs (repo-relative or absolute) linked in
     allow_nobody: list = field(default_factory=list)  # functions deliberately left without body (nondet result)
+    unwind_funcs: dict = field(default_factory=dict)  # {function name: bound} applied to every loop of that function (derived via --show-loops)
 
 
 @dataclass
@@ -307,7 +308,22 @@ def run_harness(ctx, h):
     if not gb:
         res.status, res.note = "error", err
         return res
-    cmd = cbmc_cmd(h, gb)
+    extra = []
+    if h.unwind_funcs:
+        rc0, out0, _, _, _ = sh(["cbmc", gb, "--show-loops", "--json-ui"], timeout=120)
+        us = []
+        try:
+            for e in json.loads(out0):
+                for lp in e.get("loops", []) if isinstance(e, dict) else []:
+                    fn = (lp.get("sourceLocation") or {}).get("function", "")
+                    if fn in h.unwind_funcs:
+                        us.append("%s:%d" % (lp["name"], h.unwind_funcs[fn]))
+        except Exception:
+            pass
+        if us:
+            extra = ["--unwindset", ",".join(us)]
+        h._unwindset = extra
+    cmd = cbmc_cmd(h, gb, extra)
     res.cmd = " ".join(cmd)
     rc, out, errt, wall, rss = sh(cmd, timeout=h.timeout, mem_gb=h.mem_gb)
     res.wall = time.time() - t0
@@ -398,7 +414,7 @@ def run_harness(ctx, h):
 def get_trace_values(ctx, h, prop_id):
     outdir = ctx.scratch.sub(h.name)
     gb = os.path.join(outdir, h.name + ".gb")
-    cmd = cbmc_cmd(h, gb, ["--trace", "--property", prop_id])
+    cmd = cbmc_cmd(h, gb, getattr(h, "_unwindset", []) + ["--trace", "--property", prop_id])
     cmd = [c for c in cmd if c != "--slice-formula"]
     rc, out, err, wall, _ = sh(cmd, timeout=max(h.timeout, 600), mem_gb=h.mem_gb)
     results, status, msgs = parse_cbmc_json(out)
@@ -597,6 +613,7 @@ def run_property(pid, harnesses, tier, seed, level="model_checking", assumptions
                     break
                 elif st == "not-reproduced" and (it["cls"] in ("pointer-overflow", "pointer_arithmetic", "overflow", "pointer-primitive")
                                                  or "pointer relation" in it["description"]
+                                                 or "same object violation" in it["description"]
                                                  or "pointer arithmetic" in it["description"]
                                                  or "arithmetic overflow" in it["description"]):
                     ub_new.append(it)
